@@ -167,3 +167,68 @@ func runC07Detection(c *Ctx) {
 	}
 	c.Check("C07.B3s", funcKey(od)+":waits-on-again", eagainRet.Pos(), clean, "on need-more-data the proxy returns without consuming bytes or creating a stream connection", "on need-more-data the proxy consumes bytes, dispatches or closes: detection then depends on how the first bytes were segmented")
 }
+
+// runC07ReadBuffer (B2r): bytes that were received and not yet consumed by a decoder are never thrown away.
+// The connection's read buffer accumulates the head of a frame until the rest arrives; only the protocol layer drains
+// it. The network layer itself may recycle the buffer (Free/Alloc/Reset/...) solely when it is empty. Clause: every
+// content-discarding call on connection.readBuffer in pkg/network is dominated by the true edge of readBuffer.Len()==0
+// (directly, or in every caller when the call sits in a helper).
+func runC07ReadBuffer(c *Ctx) {
+	pkg := "pkg/network"
+	discarding := map[string]bool{"Free": true, "Alloc": true, "Reset": true, "Drain": true, "Cut": true, "SetEOF": false}
+	emptyGuard := func(b *ssa.BasicBlock) bool {
+		for _, g := range guardsAt(b) {
+			bo, ok := g.Cond.(*ssa.BinOp)
+			if !ok || !isZero(bo.Y) {
+				continue
+			}
+			call, ok := bo.X.(*ssa.Call)
+			if !ok || !call.Common().IsInvoke() || call.Common().Method.Name() != "Len" {
+				continue
+			}
+			if _, f, _, okf := loadedField(call.Common().Value); !okf || f != "readBuffer" {
+				continue
+			}
+			if (bo.Op == token.EQL && g.True) || (bo.Op == token.NEQ && !g.True) || (bo.Op == token.GTR && !g.True) {
+				return true
+			}
+		}
+		return false
+	}
+	var guardedAtCallers func(fn *ssa.Function, depth int) bool
+	guardedAtCallers = func(fn *ssa.Function, depth int) bool {
+		if depth > 2 {
+			return false
+		}
+		sites := 0
+		for _, g := range c.PkgFuncs(pkg) {
+			for _, cs := range callsIn(g, false, func(cc *ssa.CallCommon) bool { return cc.StaticCallee() == fn }) {
+				sites++
+				if !emptyGuard(cs.Instr.Block()) && !guardedAtCallers(g, depth+1) {
+					return false
+				}
+			}
+		}
+		return sites > 0
+	}
+	n := 0
+	ord := ordCounter{}
+	for _, fn := range c.PkgFuncs(pkg) {
+		forEachInstr(fn, false, func(f *ssa.Function, in ssa.Instruction) {
+			ci, ok := in.(ssa.CallInstruction)
+			if !ok || !ci.Common().IsInvoke() || !discarding[ci.Common().Method.Name()] {
+				return
+			}
+			if _, fld, _, okf := loadedField(ci.Common().Value); !okf || fld != "readBuffer" {
+				return
+			}
+			n++
+			key := ord.next(f, "discard-"+ci.Common().Method.Name())
+			ok2 := emptyGuard(in.Block()) || guardedAtCallers(f, 0)
+			c.Check("C07.B2r", key, in.Pos(), ok2, "only when the read buffer is empty", "the network layer discards the connection's read buffer ("+ci.Common().Method.Name()+") without checking that it is empty: the head of a frame that is still waiting for its remaining bytes is thrown away, so what is decoded depends on when the bytes arrived")
+		})
+	}
+	if n < 2 {
+		c.Unresolved("C07.B2r", fmt.Sprintf("discarding calls on connection.readBuffer (found %d)", n))
+	}
+}
